@@ -46,6 +46,7 @@ def calc_sig_dur_vals(motion, dt, start=0.05, end=0.95, se=False):
     tuple (start_time, end_time)
     """
 
+    motion = np.asarray(motion, dtype=float)  # array-like input; squares of narrow integer types wrap around
     cum_acc2 = np.cumsum(motion ** 2)
     ind2 = np.where((cum_acc2 > start * cum_acc2[-1]) & (cum_acc2 < end * cum_acc2[-1]))
     start_time = ind2[0][0] * dt
